@@ -414,3 +414,23 @@ def poly_guard(test, norm, truth=None, nkey="N"):
         return None
 
     return ev(test)
+
+
+_NEG_OPS = {ast.NotEq: ast.Eq, ast.NotIn: ast.In, ast.IsNot: ast.Is}
+
+
+def canon_guard(test, pol=True):
+    """(text, polarity) of a guard with the negation moved out of the test: ('a not in b', True) == ('a in b', False),
+    ('not x', True) == ('x', False).  Lets a rule state the guard it expects in either spelling."""
+    if isinstance(test, str):
+        test = ast.parse(test, mode="eval").body
+    while True:
+        if isinstance(test, ast.UnaryOp) and isinstance(test.op, ast.Not):
+            test, pol = test.operand, not pol
+            continue
+        if isinstance(test, ast.Compare) and len(test.ops) == 1 and type(test.ops[0]) in _NEG_OPS:
+            test = ast.Compare(left=test.left, ops=[_NEG_OPS[type(test.ops[0])]()], comparators=test.comparators)
+            pol = not pol
+            continue
+        break
+    return ast.unparse(test), pol
